@@ -5,7 +5,7 @@ rtol 1e-12 when flooring); must validate with box coordinates; checkpoint tree h
 and after; poison allocator on the np.empty offset/min/max tables."""
 import os, random, hashlib
 import numpy as np
-from .. import common, gen, chkgen, refparse, refmodel, pools, poison, workload
+from .. import common, gen, chkgen, refparse, refmodel, pools, poison, workload, endurance
 
 ID = "C17"
 LEVEL = "exploration"
@@ -18,7 +18,7 @@ RULE = ("cases = synthetic PeleLMeX checkpoints (1-3 levels, anisotropic and iso
         "differs, or an anisotropic domain")
 ASSUMPTIONS = ["checkpoint layout as in test_assets/example_chk_3d", "pool shim M1 with shuffled schedules",
                "cell sizes are derived as (hi-lo)/N like the tool does (the checkpoint does not store them)"]
-REQUIRED_OBS = {"conversions": 40, "with_reactions": 10, "with_gradp": 20, "floored": 15,
+REQUIRED_OBS = {"endurance_calls": 100, "conversions": 40, "with_reactions": 10, "with_gradp": 20, "floored": 15,
                 "anisotropic": 10, "default_output": 8, "ref_plotfile": 10, "second_checkpoint_same_process": 10, "no_chk_in_name": 10}
 TIMEOUT = {"quick": 400, "thorough": 2000}
 SPECIES = ["H2", "IC8H18", "RO2", "Y2O3", "CH2(S)"]     # names that start with the letters of the prefixes Y( and I_R(
@@ -49,7 +49,8 @@ def cases(tier, seed):
     # scale: a checkpoint whose level 0 holds a box of a million cells
     for k in range(1 if tier == "quick" else 2):
         cs.append({"gen": dict(seed=seed * 43 + 1717 + k, nspecies=2, nghost=1, aniso=True, scale=True), "sel_seed": seed * 79 + 1717 + k})
-    return cs
+    # M10: the same operation repeated in one process under a low open-file limit (vlib/endurance.py)
+    return cs + [endurance.case("convert", tier, seed)]
 
 
 def setup():
@@ -115,6 +116,8 @@ def expect(m, species, gradp, reactions, floor):
 
 
 def run_case(case, work, rec):
+    if case.get("kind") == "endurance":
+        return endurance.run_case(case, work, rec)
     if case["gen"].get("scale"):
         rec.count("scale_cases")
         run_one(case, work, rec, case["gen"], "chk00005", 2)
